@@ -461,6 +461,29 @@ def dst_producers(prog, cg, prod):
     return out
 
 
+def immediate_after_exception_test(prog, fn, vid, rhs, pd, dom, pos):
+    """the local is defined by a callee that returns an exception object or a boxed integer, and an
+    `if (sexp_exceptionp(v)) return ...` follows the definition"""
+    from rules import c01i
+    callee = prog.func(fn.nodes[rhs].get("o"), fn.unit)
+    if callee is None or not c01i.returns_nonneg_cursor(prog, callee):
+        return False
+    for b in fn.blocks.values():
+        if b.cond is None or len(b.succs) != 2:
+            continue
+        c = fn.strip(b.cond)
+        if fn.nodes[c]["k"] != "bin" or fn.nodes[c]["o"] != "&&":
+            continue
+        if "sexp_exceptionp" not in (fn.macros(c) or ()) or vid not in fn.refs_in(c):
+            continue
+        if not (pd[0] == b.id or pd[0] in dom.get(b.id, ())):
+            continue
+        t = b.succs[0]
+        if t is not None and t >= 0 and any(fn.nodes[e]["k"] == "ret" for e in fn.blocks[t].elems):
+            return True
+    return False
+
+
 def run_r3a(prog, res, cg, must=None, prod=None):
     from cfg import elem_positions, enclosing_elem, dominators, dominates, redefined_between
     stat = res.stat("C02.R3a", "a freshly allocated object held only in an unrooted C local is not used after a later "
@@ -468,6 +491,7 @@ def run_r3a(prog, res, cg, must=None, prod=None):
     must = must or must_alloc_functions(prog, cg)
     prod = prod or producers(prog, cg, strict=False)
     dstp = dst_producers(prog, cg, prod)
+    unsafe = unsafe_params(prog, cg, must)
 
     def fresh_call(fn, rhs):
         rn = fn.nodes[rhs]
@@ -555,6 +579,11 @@ def run_r3a(prog, res, cg, must=None, prod=None):
                             pass
             bad = None
             from cfg import reach_without, local_defs
+            # a callee that returns an exception object or a boxed integer: once the exception case is excluded
+            # the local holds an immediate, which no collection can touch
+            if immediate_after_exception_test(prog, fn, vid, rhs, pd, dom, pos):
+                stat.discharged += 1
+                continue
             kills = set()
             for (dn, _r) in local_defs(fn, vid):
                 pk = enclosing_elem(fn, dn, pos)
@@ -577,7 +606,14 @@ def run_r3a(prog, res, cg, must=None, prod=None):
                 for r in reads:
                     pr = enclosing_elem(fn, r, pos)
                     if r in fn.subtree(c):
-                        continue      # passed to the allocating call itself: R3b's business
+                        # passed to the allocating call itself: a hazard only if the callee reads that
+                        # parameter after its own collection point
+                        for ai, a in enumerate(cargs):
+                            if fn.strip(a) == r and (fn.nodes[c].get("o"), ai) in unsafe:
+                                bad = (c, r)
+                        if bad:
+                            break
+                        continue
                     if pr and reach_without(fn, pc, pr, kills | {pd}):
                         bad = (c, r)
                         break
